@@ -222,16 +222,65 @@ PROPS = {
     'C09': {
         'contract_modules': ['c09_master'],
         'replay': 'c09.py',
+        'extra': [('bounded:master-histories', bounded_replay('c09.py', 'C09', 'Master/Loader histories vs /placement', 250, 12000))],
         'functions': ['treadmill.scheduler.master:Master._placement_data', 'treadmill.scheduler.master:Master.init_schedule',
-                      'treadmill.scheduler.master:Master._unschedule_evicted', 'treadmill.scheduler.master:Master.reschedule'],
-        'assumptions': [],
+                      'treadmill.scheduler.master:Master._unschedule_evicted', 'treadmill.scheduler.master:Master.reschedule',
+                      'treadmill.scheduler.master:Master.remove_app'],
+        'assumptions': [
+            'GHOST STORE: /placement behind the storage backend is the writable ZooKeeper store of engine_fs (zk_exists / '
+            'zk_content per path); Backend.put / delete / ensure_exists / list / get_default / exists are dependency '
+            'contracts (ZkBackend = zkutils.put / ensure_deleted / ensure_exists / get_children: one atomic operation each; '
+            'placement entries have no children); paths are cp-chains - zknamespace.path.placement = make_path_f(PLACEMENT) is '
+            'read off the class body of the real source, os.path.join onto a path is cp; axioms: cp injective, '
+            '/placement/<x> is not /placement, /finished or /scheduled; a name is determined by its text (atom / name_str); '
+            'a payload is an opaque token with projections any_get(token, key) == token of the stored value (equal values '
+            '=> equal tokens), so "carries the identity and expiry the model holds" is equality of tokens',
+            'THE CYCLE IS A SUMMARY HERE (assumed contract of Cell.schedule, listed as dependency): the returned list has one '
+            '(name, server before, expiry before, server after, expiry after) record per instance of the cell, each once '
+            '(Cell.schedule builds it from Allocation.all_apps of every partition: that these are the cell\'s instances is C06 '
+            'clause 1), member servers list exactly the instances placed on them and placed instances are on member servers '
+            '(C01, proved by ./check C01), and an instance whose server and expiry are unchanged by the cycle keeps its '
+            'identity (an identity changes only through removal and re-placement, which computes a new expiry from a later '
+            'clock reading - not machine-checked)',
+            'C09 is proved in inductive form: Master.reschedule requires pub_all (an entry exists exactly for the placed '
+            'instances, under their server, for ALL server names) and content_all, and re-establishes both; '
+            'Master.init_schedule establishes exactness and content for the servers of the model from ANY stored state. '
+            'Events between cycles must preserve pub_all: Master.remove_app is under contract; Loader.remove_server and the '
+            'run-time Loader.reload_server / restore_placement path are NOT proved to preserve it (known findings: entries '
+            'left under a removed server; a reloaded server re-places its instances with a new expiry and the entries are '
+            'not refreshed)',
+            'Master._update_task (trace event files) and Master._save_placement (compressed reference copy in the node '
+            '/placement itself) are assumed not to touch /placement/<server>/<instance>; identity_count in the payload is '
+            'not part of the statement',
+            'BOUNDED stand-in (labelled bounded): replay/c09.py drives the real Master / Loader over an in-memory backend '
+            'through random ZooKeeper-level histories with crash injection and fail-over and compares the whole /placement '
+            'tree (existence and content) with the model after every cycle; server-record deletion and run-time server '
+            'reload (the two listed known findings) are left out of the random histories',
+        ],
     },
     'C10': {
         'contract_modules': ['c09_master'],
         'functions': ['treadmill.scheduler.master:Master.init_schedule',
-                      'treadmill.scheduler.master:Master._unschedule_evicted', 'treadmill.scheduler.master:Master.reschedule'],
+                      'treadmill.scheduler.master:Master._unschedule_evicted', 'treadmill.scheduler.master:Master.reschedule',
+                      'treadmill.scheduler.master:Master.remove_app'],
         'replay': 'c09.py',
-        'assumptions': [],
+        'extra': [('bounded:master-crash-histories', bounded_replay('c09.py', 'C10', 'Master/Loader histories with crash points', 250, 12000))],
+        'assumptions': [
+            'CRASH POINTS: the store changes only inside Backend.put / delete / ensure_exists (one ZooKeeper operation each, '
+            'dependency contracts). no_dup (no instance has entries under two servers) is a call-site clause in the state '
+            'before EVERY such call of Master.reschedule and Master.init_schedule, a loop invariant of their loops and a '
+            'postcondition; every state a crash can leave behind is one of those states',
+            'reschedule starts from pub_all (C09\'s inductive invariant, which implies no_dup); init_schedule starts from ANY '
+            'store without duplicates whose entries are under servers of the model (entries_known: Loader.restore_placements '
+            'drops an instance found under two servers; entries under unknown servers are the listed C09 known finding) and '
+            'ends with the placement equal to the model on member servers (the C09 clauses of init_schedule, discharged by '
+            './check C09) - "a newly elected master started on that stored state again publishes a placement equal to its '
+            'model"; load_model itself (Loader.restore_placements / restore_placement) is under contract in ./check C11',
+            '"completes start-up" / "never fails its own integrity check" (Loader.check_placement_integrity, an assertion over '
+            'the stored tree) is decided by the bounded stand-in only: replay/c09.py cuts every publication at a random '
+            'write, checks the stored tree for duplicates, starts a new master on it and runs its integrity check',
+            'the ghost-store, path and cycle-summary assumptions of C09 apply (same contract module)',
+        ],
     },
     'C12': {
         'contract_modules': ['c12_eventmgr'],
